@@ -38,7 +38,9 @@ def gen_data():
 
 def build(ctx):
     gen_data()
-    flags = ["-fno-access-control", '-DC03_DATA="%s"' % DATA]
+    # H6: small initial parser buffers - buffers grow (and nested buffers are flushed) while builders are open, and a write or
+    # a runaway iterator that leaves an object soon leaves the allocation, where ASan sees it
+    flags = ["-fno-access-control", '-DC03_DATA="%s"' % DATA, "-DOSMIUM_VERIF_PARSER_BUFFER_SIZE=512", "-DOSMIUM_VERIF_PBF_BUFFER_SIZE=256"]
     n, d = ctx.build_many([dict(name="h03n", sources=["h03.cpp"], asan=True, ndebug=True, opt="-O2", flags=flags),
                            dict(name="h03d", sources=["h03.cpp"], asan=True, ndebug=False, opt="-O1", flags=flags)])
     return {"h03n": n, "h03d": d}
